@@ -151,6 +151,7 @@ func runC15(rec *vk.Rec, ci int, self string) {
 		sc := bufio.NewScanner(stdout)
 		sc.Buffer(make([]byte, 1<<20), 1<<20)
 		opened := false
+		openFail := "the child never reported OPEN"
 		acks := 0
 		var timer *time.Timer
 		killed := false
@@ -174,7 +175,7 @@ func runC15(rec *vk.Rec, ci int, self string) {
 					timer = time.AfterFunc(delay, func() { stdin.Close() })
 				}
 			case strings.HasPrefix(line, "OPENFAIL"):
-				fail("store-does-not-reopen", line)
+				openFail = line
 			case strings.HasPrefix(line, "TRY "):
 				p := strings.SplitN(line, " ", 5)
 				if len(p) == 5 {
@@ -201,7 +202,12 @@ func runC15(rec *vk.Rec, ci int, self string) {
 		watchdog.Stop()
 		cmd.Wait()
 		if !opened {
-			fail("store-does-not-reopen", fmt.Sprintf("cycle %d: the child never reported OPEN", cy))
+			cls := "other"
+			if strings.Contains(openFail, "while opening memtables") {
+				cls = "badger-memtable-file-left-by-kill"
+			}
+			fail("store-does-not-reopen/"+cls, fmt.Sprintf("cycle %d (after plan %v): the store did not reopen: %s", cy, plan, openFail))
+			rec.Case(vk.Hash(strings.Join(plan, ","), "openfail"), true)
 			return
 		}
 		if mode != 2 {
